@@ -115,14 +115,16 @@ def _ob_create_params(I):
     p = I.sym('protocol_fee', hi=U128)
     sfee = I.sym('swap_fee', hi=U128)
     bu = I.sym('burn_fee', hi=U128)
-    fees = pool_fee(p, sfee, bu)
+    nex = I.choose(3, 'extra_fees')          # 0, 1 or 2 extra fees: each below 100%, and they count towards the 20% total
+    ex = [I.sym('extra_fee%d' % k, hi=U128) for k in range(nex)]
+    fees = pool_fee(p, sfee, bu, ex)
     amp = I.sym('amp', hi=U64)
     ptype = xyk() if kind == 0 else stable(amp)
     ik = I.choose(4, 'ident')
     ident = [None, 'mine', 'taken', 'bad id!'][ik]
     ch = Chain(I, CONTRACTS)
     st, resp = ch.execute('creator', PM, create_msg(denoms, [6] * declen, fees, ptype, ident), [coin_v('uusd', 1000)])
-    fees_ok = smt.And(p < E18, sfee < E18, bu < E18, p + sfee + bu <= 2 * 10 ** 17)
+    fees_ok = smt.And(p < E18, sfee < E18, bu < E18, *([e < E18 for e in ex] + [p + sfee + bu + sum(ex) <= 2 * 10 ** 17]))
     count_ok = (n == 2) if kind == 0 else (2 <= n <= 4)
     valid = smt.And(fees_ok, count_ok, not dup, declen == n, ik in (0, 1), True if kind == 0 else amp > 0)
     if st != 'ok':
@@ -151,21 +153,23 @@ def _replay_create_params(label, m):
     ik = ch.get('ident', 0)
     ident = [None, 'mine', 'taken', 'bad id!'][ik]
     p, sfee, bu, amp = m['protocol_fee'], m['swap_fee'], m['burn_fee'], m.get('amp', 0)
+    ex = [m.get('extra_fee%d' % k, 0) for k in range(ch.get('extra_fees', 0))]
     steps = [{'op': 'set_pool', 'pool': pool_json('o.taken', ['uX', 'uY'], [6, 6], [0, 0], 'constant_product', (0, 0, 0, []))}]
     steps += _mints([('creator', [('uusd', 1000)])])
     steps.append({'op': 'execute', 'contract': 'pool_manager', 'sender': 'creator', 'funds': [coin_j('uusd', 1000)],
                   'msg': {'create_pool': {'asset_denoms': denoms, 'asset_decimals': [6] * declen,
-                                          'pool_fees': {'protocol_fee': {'share': dec_j(p)}, 'swap_fee': {'share': dec_j(sfee)}, 'burn_fee': {'share': dec_j(bu)}, 'extra_fees': []},
+                                          'pool_fees': {'protocol_fee': {'share': dec_j(p)}, 'swap_fee': {'share': dec_j(sfee)}, 'burn_fee': {'share': dec_j(bu)},
+                                                        'extra_fees': [{'share': dec_j(e)} for e in ex]},
                                           'pool_type': 'constant_product' if kind == 0 else {'stable_swap': {'amp': amp}}, 'pool_identifier': ident}}})
     sc = {'setup': {'pool': {'pool_creation_fee': {'denom': 'uusd', 'amount': '1000'}}}, 'tf_fees': [], 'steps': steps}
-    fees_ok = p < E18 and sfee < E18 and bu < E18 and p + sfee + bu <= 2 * 10 ** 17
+    fees_ok = p < E18 and sfee < E18 and bu < E18 and all(e < E18 for e in ex) and p + sfee + bu + sum(ex) <= 2 * 10 ** 17
     count_ok = (n == 2) if kind == 0 else (2 <= n <= 4)
     valid = fees_ok and count_ok and (not dup) and declen == n and ik in (0, 1) and (kind == 0 or amp > 0)
 
     def judge(out):
         tx = out['results'][len(steps) - 1]
-        what = '%s pool with assets %s, %d decimals, fees %s/%s/%s, amp %s, identifier %r' % (
-            'constant-product' if kind == 0 else 'stableswap', denoms, declen, dec_j(p), dec_j(sfee), dec_j(bu), amp, ident)
+        what = '%s pool with assets %s, %d decimals, fees %s/%s/%s + extra %s, amp %s, identifier %r' % (
+            'constant-product' if kind == 0 else 'stableswap', denoms, declen, dec_j(p), dec_j(sfee), dec_j(bu), [dec_j(e) for e in ex], amp, ident)
         if 'ok' in tx and not valid:
             return True, 'invalid pool accepted: ' + what
         if 'ok' not in tx and valid:
@@ -177,7 +181,7 @@ def _replay_create_params(label, m):
 obligation('C16', 'S2.create_pool_parameters', entries=['execute', 'create_pool', 'PoolFee::is_valid', 'validate_pool_identifier'], kind='S',
            statement='a pool is created iff: 2 assets (constant product) or 2-4 distinct assets with amp > 0 (stableswap), decimals list of the same length, '
                      'each fee < 100% and total <= 20%, well-formed identifier not already in use; explicit ids get the o. prefix, generated ones p.<counter>',
-           bounds='asset count 2..5, duplicate or not, decimals length n or n+1, fee shares symbolic, amp symbolic, identifier none/fresh/taken/malformed',
+           bounds='asset count 2..5, duplicate or not, decimals length n or n+1, fee shares symbolic incl. 0-2 extra fees, amp symbolic, identifier none/fresh/taken/malformed',
            covers=['ok', 'rejected'], replay=_replay_create_params)(_ob_create_params)
 
 
